@@ -76,5 +76,10 @@ DoneOK ==
 
 Terminates == <>(pc = "done")
 
+(* Refinement of the module whose invariants are PROVED for every length and content by TLAPS (MinMaxAlg.tla, proofs in *)
+(* MinMaxProof.tla).                                                                                                  *)
+PP == INSTANCE MinMaxAlg WITH N <- Len(r)
+RefinesProof == PP!Spec
+
 EmitInv == (Emit /\ pc = "done" /\ mode = "argmin") => PrintT(<<"REPLAY", ToJson([ev |-> "minmax", r |-> r])>>)
 =============================================================================
